@@ -125,10 +125,36 @@ func dumpStore(st stypes.KVStore) []kvPair {
 }
 
 type c16 struct {
-	run   *ev.Run
-	mu    sync.Mutex
-	eval  int64
-	kinds map[string]int64
+	run      *ev.Run
+	mu       sync.Mutex
+	eval     int64
+	kinds    map[string]int64
+	ops      int64               // operations executed on the real wrappers
+	nontriv  int64               // programs (distinct by construction) that observe after mutating
+	outcomes map[uint64]struct{} // distinct (part, results, final content) hashes
+}
+
+// note records one executed program: its operation count, whether it is non-trivial, its outcome.
+func (c *c16) note(part string, ops []sop, prog []int, runs int64, outcome string) {
+	mutated, nt := false, false
+	for _, i := range prog {
+		switch ops[i].kind {
+		case "set", "del":
+			mutated = true
+		default:
+			if mutated {
+				nt = true
+			}
+		}
+	}
+	h := hashStr(part + "|" + outcome)
+	c.mu.Lock()
+	c.ops += runs * int64(len(prog))
+	if nt {
+		c.nontriv++
+	}
+	c.outcomes[h] = struct{}{}
+	c.mu.Unlock()
 }
 
 func (c *c16) fail(sig, what string, replay interface{}) {
@@ -307,6 +333,7 @@ func (c *c16) prefixRun(p []byte, bkeys [][]byte, pl []int, ops []sop, prog []in
 			return
 		}
 	}
+	c.note("prefix", ops, prog, 1, fmt.Sprintf("%X|%s", p, pairsString(dumpStore(parent))))
 }
 
 func keysOf(bkeys [][]byte, pl []int) []string {
@@ -389,7 +416,14 @@ func gasPreload() (stypes.KVStore, kvMap) {
 // runGas runs prog under a meter; returns per-op results, consumed after each op, and the panic
 // value (with op index) if any.
 func runGas(ops []sop, prog []int, meter stypes.GasMeter) (results []opResult, consumed []uint64, panicAt int, panicVal interface{}) {
+	results, consumed, panicAt, panicVal, _ = runGasContent(ops, prog, meter)
+	return
+}
+
+// runGasContent additionally returns the content of the wrapped store when the run ended.
+func runGasContent(ops []sop, prog []int, meter stypes.GasMeter) (results []opResult, consumed []uint64, panicAt int, panicVal interface{}, content []kvPair) {
 	parent, _ := gasPreload()
+	defer func() { content = dumpStore(parent) }()
 	st := gaskv.NewStore(parent, meter, stypes.KVGasConfig())
 	panicAt = -1
 	for i, oi := range prog {
@@ -526,7 +560,7 @@ func (c *c16) gasProgram(ops []sop, prog []int, cfg stypes.GasConfig) int64 {
 			}
 		}
 		meter := stypes.NewGasMeter(lim)
-		res, _, pAt, pv := runGas(ops, prog, meter)
+		res, _, pAt, pv, content := runGasContent(ops, prog, meter)
 		if cross < 0 {
 			if pAt >= 0 {
 				c.fail("C16|gas|spurious-out-of-gas", fmt.Sprintf("program %s with limit %d (total cost %d): op %d raised %v", progString(ops, prog), lim, cum, pAt, pv), rep)
@@ -552,6 +586,16 @@ func (c *c16) gasProgram(ops []sop, prog []int, cfg stypes.GasConfig) int64 {
 				return runs
 			}
 		}
+		// the operation that crosses the limit is not performed: the wrapped store holds what the
+		// operations before it left
+		_, mb := gasPreload()
+		for i := 0; i < pAt; i++ {
+			modelSop(mb, ops[prog[i]])
+		}
+		if !pairsEqual(content, mb.iterate(nil, nil, true)) {
+			c.fail("C16|gas|effect-of-rejected-op|"+ops[prog[pAt]].kind, fmt.Sprintf("program %s with limit %d: op %d (%s) raised out-of-gas (%s) but the wrapped store holds [%s]; the operations before it leave [%s]", progString(ops, prog), lim, pAt, ops[prog[pAt]], og.Descriptor, pairsString(content), pairsString(mb.iterate(nil, nil, true))), rep)
+			return runs
+		}
 		if meter.GasConsumed() != bounds[cross] {
 			c.fail("C16|gas|consumed-at-out-of-gas", fmt.Sprintf("program %s with limit %d: consumed %d after out-of-gas, crossing charge brings the total to %d", progString(ops, prog), lim, meter.GasConsumed(), bounds[cross]), rep)
 			return runs
@@ -575,6 +619,7 @@ func (c *c16) gasProgram(ops []sop, prog []int, cfg stypes.GasConfig) int64 {
 			}
 		}
 	}
+	c.note("gas", ops, prog, runs, fmt.Sprint(res)+fmt.Sprint(cons))
 	return runs
 }
 
@@ -669,6 +714,7 @@ func (c *c16) traceProgram(ops []sop, prog []int) {
 	if fmt.Sprint(got) != fmt.Sprint(want) {
 		c.fail("C16|trace|lines", fmt.Sprintf("program %s: trace %v, operations performed %v", progString(ops, prog), got, want), rep)
 	}
+	c.note("trace", ops, prog, 1, fmt.Sprint(got))
 }
 
 // ---------------------------------------------------------------------------------------------
@@ -697,7 +743,28 @@ func (c *c16) stackCheck(tier string) {
 	L := 3
 	pfx := []byte{0x01, 0xFF}
 	var n int64
+	type permMode struct {
+		perm     []layer
+		byMethod bool
+	}
+	var permModes []permMode
 	for _, perm := range perms {
+		permModes = append(permModes, permMode{perm, false})
+		for _, l := range perm {
+			if l == "cache" {
+				permModes = append(permModes, permMode{perm, true})
+				break
+			}
+		}
+	}
+	how := func(m bool) string {
+		if m {
+			return " built with CacheWrap/CacheWrapWithTrace"
+		}
+		return ""
+	}
+	for _, pm := range permModes {
+		perm, byMethod := pm.perm, pm.byMethod
 		prog := make([]int, L)
 		var rec func(pos int)
 		rec = func(pos int) {
@@ -719,7 +786,27 @@ func (c *c16) stackCheck(tier string) {
 			hasPrefix := false
 			var caches []stypes.CacheKVStore
 			var tb bytes.Buffer
-			for _, l := range perm { // perm[0] is the innermost wrapper
+			for li := 0; li < len(perm); li++ { // perm[0] is the innermost wrapper
+				l := perm[li]
+				byMethod = pm.byMethod
+				switch st.(type) {
+				case *gaskv.Store, *tracekv.Store:
+					byMethod = false // "cannot CacheWrap a GasKVStore / a Store": these wrappers refuse by design
+				}
+				if byMethod && l == "trace" && li+1 < len(perm) && perm[li+1] == "cache" {
+					// the wrapper's own method builds cache-over-trace in one step (what cachemulti uses)
+					cs := st.CacheWrapWithTrace(&tb, nil).(stypes.CacheKVStore)
+					caches = append(caches, cs)
+					st = cs
+					li++
+					continue
+				}
+				if byMethod && l == "cache" {
+					cs := st.CacheWrap().(stypes.CacheKVStore)
+					caches = append(caches, cs)
+					st = cs
+					continue
+				}
 				switch l {
 				case "prefix":
 					st = prefix.NewStore(st, append(make([]byte, 0, 32), pfx...))
@@ -755,17 +842,18 @@ func (c *c16) stackCheck(tier string) {
 				}
 				got := applySop(st, o)
 				if !sameResult(got, want) {
-					c.fail("C16|stack|result", fmt.Sprintf("stack %v (innermost first), program %s: step %d %s = {%s}, model {%s}", perm, progString(ops, prog), step, o, got, want),
-						map[string]interface{}{"stack": perm, "program": progString(ops, prog)})
+					c.fail("C16|stack|result", fmt.Sprintf("stack %v (innermost first)%s, program %s: step %d %s = {%s}, model {%s}", perm, how(byMethod), progString(ops, prog), step, o, got, want),
+						map[string]interface{}{"by_method": byMethod, "stack": perm, "program": progString(ops, prog)})
 					return
 				}
 			}
 			for _, cs := range caches {
 				cs.Write()
 			}
+			c.note("stack", ops, prog, 1, fmt.Sprint(perm, byMethod)+pairsString(dumpStore(parent)))
 			if pd := dumpStore(parent); !pairsEqual(pd, model.iterate(nil, nil, true)) {
-				c.fail("C16|stack|parent-content", fmt.Sprintf("stack %v, program %s: parent holds [%s], model [%s]", perm, progString(ops, prog), pairsString(pd), pairsString(model.iterate(nil, nil, true))),
-					map[string]interface{}{"stack": perm, "program": progString(ops, prog)})
+				c.fail("C16|stack|parent-content", fmt.Sprintf("stack %v%s, program %s: parent holds [%s], model [%s]", perm, how(byMethod), progString(ops, prog), pairsString(pd), pairsString(model.iterate(nil, nil, true))),
+					map[string]interface{}{"by_method": byMethod, "stack": perm, "program": progString(ops, prog)})
 			}
 		}
 		rec(0)
@@ -776,19 +864,19 @@ func (c *c16) stackCheck(tier string) {
 // C16 entry point.
 func C16(tier string) int {
 	run := ev.NewRun("C16", tier, "model_checking")
-	c := &c16{run: run, kinds: map[string]int64{}}
+	c := &c16{run: run, kinds: map[string]int64{}, outcomes: map[uint64]struct{}{}}
 	c.prefixCheck(tier)
 	c.gasCheck(tier)
 	c.traceCheck(tier)
 	c.stackCheck(tier)
 	run.Set("programs", c.eval)
 	run.Set("evaluations", c.eval)
-	run.Set("states", c.eval)
-	run.Set("transitions", c.eval*3)
+	run.Set("states", int64(len(c.outcomes)))
+	run.Set("transitions", c.ops)
 	run.Set("traces_validated_against_impl", c.eval)
-	run.Set("distinct_nontrivial", c.eval)
+	run.Set("distinct_nontrivial", c.nontriv)
 	run.Set("by_part", c.kinds)
-	run.Set("rule", "prefix: every program of L ops (4 keys incl. empty/00/FF, 25 start/end pairs x 2 directions) on prefixes {01, 01FF, FF, FFFF, 00, empty} over parents preloaded with subsets of the boundary key set; gas: every program of L ops, re-run under every limit one below/at/above every cumulative charge and pre-charged to overflow at every charge, both meter kinds; trace: every program of L ops, decoded JSON lines compared with the operation list; stackings: every ordered selection of {prefix,gas,trace,cache}, every program of 3 ops")
+	run.Set("rule", "prefix: every program of L ops (4 keys incl. empty/00/FF, 25 start/end pairs x 2 directions) on prefixes {01, 01FF, FF, FFFF, 00, empty} over parents preloaded with subsets of the boundary key set; gas: every program of L ops, re-run under every limit one below/at/above every cumulative charge and pre-charged to overflow at every charge, both meter kinds; trace: every program of L ops, decoded JSON lines compared with the operation list; stackings: every ordered selection of {prefix,gas,trace,cache}, built with the constructors and with the wrappers' own CacheWrap / CacheWrapWithTrace methods, every program of 3 ops. evaluations = program runs (a gas program counts once per limit); states = distinct outcomes (part, results of every operation, final content of the wrapped store); transitions = operations executed on the real wrappers; distinct_nontrivial = programs (distinct by construction within their part and configuration) in which a get/has/iteration follows a set/delete")
 	run.Sample(map[string]interface{}{"part": "prefix", "prefix": "01FF", "preload": []string{"01FF", "01FFFF", "02"}, "program": "set(\"\\xff\",\"v\"); iter(nil,nil,desc)"})
 	run.Sample(map[string]interface{}{"part": "gas", "program": "get(\"a\"); iter(nil,nil,asc); set(\"b\",\"0123456789\")", "limits": "each cumulative charge -1/0/+1"})
 	run.Assume("shipped KVGasConfig is the documented cost table; iterators are charged at creation-if-valid and at every Next-while-valid with the current value's length (gaskv documentation)",
